@@ -28,6 +28,8 @@ META = {
 def run(ctx):
     obs = ctx.obs
     obs.extra['meta'] = META
+    from ..model.grids import set_wide_longitudes
+    set_wide_longitudes(True)      # also datasets in the 0..360 convention / straddling 180 degrees
     total = ctx.n(480, 12000)
     for case, rng in ctx.cases(total):
         conv = CONVENTIONS[case % len(CONVENTIONS)]
